@@ -356,10 +356,11 @@ def _community(value: str) -> Community:
 
         prefix_int, suffix_int = int(prefix), int(suffix)
 
-        if prefix_int > Community.MAX:
+        # each half is 16 bits (RFC 1997); Community.MAX is the 32-bit value
+        if prefix_int > _SIZE_H:
             raise ValueError('invalid community {} (prefix too large)'.format(value))
 
-        if suffix_int > Community.MAX:
+        if suffix_int > _SIZE_H:
             raise ValueError('invalid community {} (suffix too large)'.format(value))
 
         return Community(pack('!L', (prefix_int << 16) + suffix_int))
@@ -411,13 +412,14 @@ def _large_community(value: str) -> LargeCommunity:
     if separator > 0:
         prefix, affix, suffix = value.split(':')
 
-        if not any(map(lambda c: c.isdigit(), [prefix, affix, suffix])):
+        if not all(map(lambda c: c.isdigit(), [prefix, affix, suffix])):
             raise ValueError('invalid community {}'.format(value))
 
         prefix_int, affix_int, suffix_int = map(int, [prefix, affix, suffix])
 
+        # each part is 32 bits (RFC 8092); LargeCommunity.MAX is the 96-bit value
         for i in [prefix_int, affix_int, suffix_int]:
-            if i > LargeCommunity.MAX:
+            if i > _SIZE_L:
                 raise ValueError('invalid community %i in %s too large' % (i, value))
 
         return LargeCommunity(pack('!LLL', prefix_int, affix_int, suffix_int))
